@@ -209,6 +209,7 @@ func (vc *VC) applyContract(info *calleeInfo, args []Term, argTypes []types.Type
 		panic(fmt.Errorf("contract of %s lists %d parameters, call passes %d", info.name, len(names), len(args)))
 	}
 	pre := vc.cur.clone()
+	vc.callPre = pre
 	bind := map[string]binding{}
 	for i, n := range names {
 		bind[n.Name] = binding{t: args[i], typ: goT(argTypes[i])}
@@ -353,6 +354,7 @@ func (vc *VC) ghostBlockAt(c *Clause, pos token.Pos, results []Term) {
 func (vc *VC) ghostBlockAtT(c *Clause, pos token.Pos, results []Term, types []types.Type) {
 	ctx := vc.ctx(vc.cur, vc.entry)
 	ctx.loopScope = pos
+	ctx.before = vc.callPre
 	for k, v := range vc.curArgs {
 		ctx.vars[k] = v
 	}
@@ -413,6 +415,7 @@ func (vc *VC) builtin(x *ssa.Call, b *ssa.Builtin) {
 	if !strings.HasPrefix(b.Name(), "ssa:") {
 		k := vc.callCount[b.Name()]
 		vc.callCount[b.Name()] = k + 1
+		vc.callPre = vc.cur.clone()
 		defer func() {
 			for _, c := range vc.decl.Clauses {
 				if c.Callee == b.Name() && c.CallK == k && c.Kind == "ghost" && c.Anchor == "after-call" {
@@ -518,9 +521,12 @@ func (vc *VC) appendBuiltin(x *ssa.Call) {
 	roff := vc.define("roff", sInt, ite(fits, soff, "0"))
 	A := vc.fresh("acontent", "(Array Int "+es+")")
 	sel := func(a, k Term) Term { return app("select", a, k) }
-	// old elements keep their values
-	vc.assume(fmt.Sprintf("(forall ((k Int)) (! (=> (and (<= %s k) (< k (+ %s %s))) (= %s %s)) :pattern (%s)))",
-		roff, roff, slen, sel(A, "k"), sel(dstOld, app("+", soff, app("-", "k", roff))), sel(A, "k")))
+	elt := vc.reg.eltFn(es)
+	toff := vc.define("toff", sInt, app("ys.off", t))
+	// old elements keep their values (stated through the element-access function, so that no
+	// arithmetic occurs in the pattern or is needed to use the fact)
+	vc.assume(fmt.Sprintf("(forall ((j Int)) (! (=> (and (<= 0 j) (< j %s)) (= (%s %s %s j) (%s %s %s j))) :pattern ((%s %s %s j))))",
+		slen, elt, A, roff, elt, dstOld, soff, elt, A, roff))
 	// appended elements: a single one (the common case) without a quantifier
 	single := false
 	if sl, ok := args[1].(*ssa.Slice); ok {
@@ -531,10 +537,10 @@ func (vc *VC) appendBuiltin(x *ssa.Call) {
 		}
 	}
 	if single {
-		vc.assume(eq(sel(A, app("+", roff, slen)), sel(src, app("ys.off", t))))
+		vc.assume(eq(app(elt, A, roff, slen), sel(src, toff)))
 	} else {
-		vc.assume(fmt.Sprintf("(forall ((k Int)) (! (=> (and (<= (+ %s %s) k) (< k (+ %s %s))) (= %s %s)) :pattern (%s)))",
-			roff, slen, roff, newLen, sel(A, "k"), sel(src, app("+", app("ys.off", t), app("-", "k", app("+", roff, slen)))), sel(A, "k")))
+		vc.assume(fmt.Sprintf("(forall ((j Int)) (! (=> (and (<= %s j) (< j %s)) (= (%s %s %s j) (%s %s %s (- j %s)))) :pattern ((%s %s %s j))))",
+			slen, newLen, elt, A, roff, elt, src, toff, slen, elt, A, roff))
 	}
 	// in place: everything outside the appended range is untouched (visible through aliases)
 	vc.assume(implies(fits, fmt.Sprintf("(forall ((k Int)) (! (=> (or (< k (+ %s %s)) (>= k (+ %s %s))) (= %s %s)) :pattern (%s)))",
